@@ -84,7 +84,7 @@ Definition ParseType (c : bytes) : res ty :=
   | _ =>
       match columnParts c with
       | [] => Panic   (* parts[0]: index out of range *)
-      | t :: _ as parts =>
+      | (t :: _) as parts =>
           if mem_b t bool_names then Ok (BoolType t)
           else if bytes_eqb t (bs "blob") then Ok (BinaryType t None)
           else if mem_b t int_names then Ok (IntegerType t false)
